@@ -187,28 +187,37 @@ def sh4(prog):
     def decided_polarity(t):
         pols = set()
         for x in mir.subterms(t):
-            if mir.is_call(x, "decide") and len(x[2]) == 2 and mir.is_call(strip(x[2][1]), "new"):
-                p = strip(strip(x[2][1])[2][1])
+            # the decision literal Literal::new(v, <const>) — handed to decide directly or to a branch helper
+            if mir.is_call(x, "new") and "Literal" in x[1].key() and len(x[2]) == 2:
+                p = strip(x[2][1])
                 if p[0] == "const":
                     pols.add(p[2])
         return pols
     lo, hi = decided_polarity(cs.args[1]), decided_polarity(cs.args[2])
     errs = []
-    if lo != {"0"}:
-        errs.append("the low child derives from decide(var = %s)" % sorted(lo))
-    if hi != {"1"}:
-        errs.append("the high child derives from decide(var = %s)" % sorted(hi))
+    if not lo or not hi:
+        errs.append("?the children's decision literals are not visible in topdown_h")
+    else:
+        if lo != {"0"}:
+            errs.append("the low child derives from decide(var = %s)" % sorted(lo))
+        if hi != {"1"}:
+            errs.append("the high child derives from decide(var = %s)" % sorted(hi))
     v = strip(cs.args[0])
     if not mir.is_call(v, "var_at_level"):
         errs.append("decision variable is not order.var_at_level(level)")
-    return [inst("SH", "%s:SH4:decision-children" % fn.npath, VIOLATION if errs else OK, fn, cs.line,
-                 "; ".join(errs) if errs else "node(var, low = sub-diagram after var=false, high = after var=true)")]
+    return [inst("SH", "%s:SH4:decision-children" % fn.npath,
+                 OK if not errs else (UNDECIDED if all(e.startswith("?") for e in errs) else VIOLATION), fn, cs.line,
+                 "; ".join(e.lstrip("?") for e in errs) if errs else "node(var, low = sub-diagram after var=false, high = after var=true)")]
 
 
 def sh5(prog):
     out = []
     # BDD fold closure
-    par = "<repr::bdd::BddPtr as repr::ddnnf::DDNNFPtr>::fold::bottomup_pass_h"
+    nest = [f for f in prog.lib_fns if f.parent == "<repr::bdd::BddPtr as repr::ddnnf::DDNNFPtr>::fold" and f.kind != "Closure"]
+    if len(nest) != 1:
+        raise CheckerError("SH5: nested traversal of BddPtr::fold not found")
+    par = nest[0].npath
+    rec_name = nest[0].name
     cl = [f for f in prog.lib_fns if f.parent == par and f.kind == "Closure"]
     if len(cl) != 1:
         raise CheckerError("SH5: BDD fold closure not found")
@@ -226,7 +235,7 @@ def sh5(prog):
                 lpol = strip(x[4][1])[2]
         which = None
         for x in mir.subterms(child):
-            if mir.is_call(x, "bottomup_pass_h"):
+            if mir.is_call(x, rec_name):
                 a = x[2][0]
                 # (l, h) tuple projection .0 / .1 of the gated pair, or low_raw/high_raw directly
                 if a[0] == "field" and a[2] in ("0", "1"):
@@ -271,16 +280,20 @@ def sh5(prog):
     out.append(inst("SH", "%s:SH5:callback-order" % fn.npath, VIOLATION if errs else OK, fn, None,
                     "; ".join(errs) if errs else "f(var, value of low, value of high)"))
     # SDD fold closure: And(rec(prime(e)), rec(sub(e))) of one element
-    par = "<repr::sdd::SddPtr as repr::ddnnf::DDNNFPtr>::fold::bottomup_pass_h"
+    nest = [f for f in prog.lib_fns if f.parent == "<repr::sdd::SddPtr as repr::ddnnf::DDNNFPtr>::fold" and f.kind != "Closure"]
+    if len(nest) != 1:
+        raise CheckerError("SH5: nested traversal of SddPtr::fold not found")
+    par = nest[0].npath
+    rec_name = nest[0].name
     cl = [f for f in prog.lib_fns if f.parent == par and f.kind == "Closure"]
-    if len(cl) != 1:
+    if len(cl) < 1:
         raise CheckerError("SH5: SDD fold closure not found")
     fn = cl[0]
-    te = fn.terms
     errs = []
-    ands = [t for bb, t, line in te.aggs if t[1] == "adt" and (t[2] or "").endswith("DDNNF") and t[3] == "And"]
+    fam = [g for g in prog.lib_fns if g.npath.startswith(par + "::{closure")]   # the element step may sit in a nested closure (Iterator::fold)
+    ands = [t for g in fam for bb, t, line in g.terms.aggs if t[1] == "adt" and (t[2] or "").endswith("DDNNF") and t[3] == "And"]
     if len(ands) != 1:
-        errs.append("expected one And node, found %d" % len(ands))
+        errs.append("?expected one And node, found %d" % len(ands))
     for t in ands:
         names = []
         elems = set()
@@ -291,8 +304,9 @@ def sh5(prog):
                 elems.add(repr(strip(nm[0][2][0])))
         if sorted(x or "" for x in names) != ["prime", "sub"] or len(elems) != 1:
             errs.append("And node combines %s of %d element(s); expected the prime and the sub of one element" % (names, len(elems)))
-    out.append(inst("SH", "%s:SH5:prime-sub-pairing" % fn.npath, VIOLATION if errs else OK, fn, None,
-                    "; ".join(errs) if errs else "Or over elements of And(prime, sub)"))
+    out.append(inst("SH", "%s:SH5:prime-sub-pairing" % fn.npath,
+                    OK if not errs else (UNDECIDED if all(e.startswith("?") for e in errs) else VIOLATION), fn, None,
+                    "; ".join(e.lstrip("?") for e in errs) if errs else "Or over elements of And(prime, sub)"))
     return out
 
 
